@@ -133,9 +133,6 @@ def float_oracle(ctx):
 def run(ctx):
     C.ensure_impl_path()
     pr = C.proof_step(ctx)
-    si = None
-    if os.path.exists(os.path.join(C.COQ, "C03", "READY")):
-        si = C.proof_step(ctx, pid="C03")
     cases = gen_cases(ctx)
     # corpus of earlier failures first
     corpus = [
@@ -181,7 +178,7 @@ def run(ctx):
     try:
         from . import c03
 
-        if getattr(c03, "SI_STREAM_READY", False):
+        if hasattr(c03, "run_si_stream_correspondence"):
             c03.run_si_stream_correspondence(ctx)
     except ImportError:
         ctx.assumptions.append("short-integration half not available in this build (harness/c03.py missing)")
